@@ -11,7 +11,7 @@
    envelope of input i whose pointer lands on an inscribed sat of a LATER input j > i is classified
    before the old inscription of input j has been recorded and gets no Reinscription charm.  Changing this
    would renumber inscriptions (protocol level): recorded, not repaired. *)
-From OrdV Require Import Base.Prelude Generated Index.Inscr Proofs.Inscr_tables Proofs.Inscr_proofs Proofs.Inscr_c06 Proofs.Inscr_c04 Proofs.Inscr_satinv Proofs.Inscr_c06b.
+From OrdV Require Import Base.Prelude Generated Index.Inscr Proofs.Inscr_tables Proofs.Inscr_proofs Proofs.Inscr_c06 Proofs.Inscr_c04 Proofs.Inscr_satinv Proofs.Inscr_c06b Proofs.Inscr_c07c Proofs.Inscr_disj.
 
 (* the sat (offset) of the new inscription at position i of the floating list already carries an inscription *)
 Definition carried_before (F : list flotsam) (i : nat) (o : N) : Prop :=
@@ -99,6 +99,71 @@ Proof.
   - exists j, g. split; [lia|]. split; [exact G1|]. split; [eapply calc_inj; eauto|]. right. exact J1.
 Qed.
 
+(* (a) at the sat level WITHOUT those assumptions, for valid chains.  chain_log cfg 0 c empty_state (Inscr_c07c) lists,
+   for the run index_chain cfg 0 c empty_state, every transaction together with the indexer state it is applied to
+   (C06_log_complete: no transaction of an indexed chain is missing).  Hypotheses: sat index on; every block is a
+   coinbase (null inputs, non-zero txid) followed by non-coinbase transactions with non-null inputs from non-zero
+   txids and a non-zero txid (block_ok3).  No distinct-txid assumption.  For every logged non-coinbase transaction t
+   with state b: the sat invariant of C03 holds in b, and no sat occurs twice in the ranges of the outputs t spends
+   (Inscr_disj: mid-block invariant "no sat twice in UTXO ranges + ranges owed to the coinbase + lost ranges",
+   sats below the next block's first sat) - so the conclusion of C06_sat_level_except holds: a new inscription whose
+   sat already carries an inscription is flagged, unless it is in the recorded class. *)
+Theorem C06_sat_level : forall cfg c t b h ents U1 st' F tiv i f n,
+  c_sats cfg = true -> Forall block_ok3 c ->
+  In (t, b) (chain_log cfg 0 c empty_state) -> tx_plain t ->
+  take_inputs (t_ins t) (s_utxo (b_st b)) = Ok (ents, U1) ->
+  s_entries st' = s_entries (b_st b) ->
+  floating_of cfg st' h t ents = Ok (F, tiv) ->
+  nth_error F i = Some f -> is_new f = true ->
+  calc_sat_in (concat (map u_ranges ents)) 0 (f_offset f) = Ok n ->
+  ((exists j g seq e, nth_error F j = Some g /\ f_origin g = OOld seq /\
+      tget N.eqb seq (s_entries (b_st b)) = Some e /\ i_sat e = Some n) \/
+   (exists j g, (j < i)%nat /\ nth_error F j = Some g /\ is_new g = true /\
+      calc_sat_in (concat (map u_ranges ents)) 0 (f_offset g) = Ok n)) ->
+  ~ Known_fwd_pointer F i f -> f_reinscr f = true.
+Proof.
+  intros cfg c t b h ents U1 st' F tiv i f n HS BO Hin HP ET HEq EF Hi Hn Hsat Hcar Hk.
+  destruct (sat_level_premises cfg c t b HS BO Hin HP) as (HE & HK & HR & HD).
+  exact (C06_sat_level_except cfg h t b ents U1 st' F tiv i f n HS HE HK HP HR ET (HD ents U1 ET) HEq EF Hi Hn Hsat Hcar Hk).
+Qed.
+
+Theorem C06_log_complete : forall cfg c st,
+  index_chain cfg 0 c empty_state = Ok st ->
+  forall blk t, In blk c -> In t blk -> exists b, In (t, b) (chain_log cfg 0 c empty_state).
+Proof. intros cfg c st H. exact (chain_log_complete cfg c 0 empty_state st H). Qed.
+
+(* Non-vacuity of C06_sat_level: block 2 reveals inscription 0 on the first sat of (2,0); block 3 spends (4,0) and
+   reveals again on offset 0: the logged state of that transaction, its floating list [old 0; new], the sat
+   5000000000 carried by both, and the flag. *)
+Definition c06_env0 : envelope := mkEnv 0 0 false false false false false false None false [].
+Definition c06_tx6 : tx := mkTx 6 [(4, 0)] [mkOut 5000000000 false] [c06_env0].
+Definition c06_chain : list block :=
+  [ [mkTx 1 [null_op] [mkOut 5000000000 false] []];
+    [mkTx 2 [null_op] [mkOut 5000000000 false] []];
+    [mkTx 3 [null_op] [mkOut 5000000000 false] []; mkTx 4 [(2, 0)] [mkOut 5000000000 false] [c06_env0]];
+    [mkTx 5 [null_op] [mkOut 5000000000 false] []; c06_tx6] ].
+
+Example C06_sat_level_nonvacuous :
+  Forall block_ok3 c06_chain /\ tx_plain c06_tx6 /\
+  exists b ents U1 F tiv g f e,
+    In (c06_tx6, b) (chain_log (cfg_of 0 true) 0 c06_chain empty_state) /\
+    take_inputs (t_ins c06_tx6) (s_utxo (b_st b)) = Ok (ents, U1) /\
+    floating_of (cfg_of 0 true) (b_st b) 3 c06_tx6 ents = Ok (F, tiv) /\ F = [g; f] /\
+    f_origin g = OOld 0 /\ tget N.eqb 0 (s_entries (b_st b)) = Some e /\ i_sat e = Some 5000000000 /\
+    is_new f = true /\ calc_sat_in (concat (map u_ranges ents)) 0 (f_offset f) = Ok 5000000000 /\
+    ~ Known_fwd_pointer F 1 f /\ f_reinscr f = true.
+Proof.
+  split; [|split].
+  - repeat constructor; vm_compute; auto; try discriminate; intuition discriminate.
+  - reflexivity.
+  - eexists. eexists. eexists. eexists. eexists. eexists. eexists. eexists.
+    split; [vm_compute; right; right; right; right; left; reflexivity|].
+    split; [vm_compute; reflexivity|]. split; [vm_compute; reflexivity|]. split; [reflexivity|].
+    split; [reflexivity|]. split; [vm_compute; reflexivity|]. split; [reflexivity|]. split; [reflexivity|].
+    split; [vm_compute; reflexivity|]. split; [|reflexivity].
+    intros (j & g' & Hlt & Hnth & _). destruct j as [|[|j]]; try lia. cbn in Hnth. destruct j; discriminate.
+Qed.
+
 (* the Reinscription / Cursed / Vindicated charms and the sign of the number are the flags *)
 Theorem C06_charms_are_flags : forall h rg f sp o b b' c fee hid ps re ub vi,
   f_origin f = ONew c fee hid ps re ub vi ->
@@ -133,3 +198,5 @@ Print Assumptions C06_known_refuted.
 Print Assumptions C06_charms_are_flags.
 Print Assumptions C06_clean_first_blessed.
 Print Assumptions C06_sat_level_except.
+Print Assumptions C06_sat_level.
+Print Assumptions C06_log_complete.
